@@ -1,6 +1,6 @@
 (* Lemmas about Model/EntryPoints.v *)
 From Coq Require Import List Bool ZArith QArith Lia.
-From Splinkv Require Import Base.TV Model.Blocking Model.Scoring Model.EntryPoints Proofs.BlockingP.
+From Splinkv Require Import Base.TV Model.Blocking Model.Scoring Model.EntryPoints Proofs.BlockingP Proofs.ScoringP.
 Import ListNotations.
 Local Open Scope Q_scope.
 
@@ -296,3 +296,82 @@ Lemma distinct_only_without_table (rec V : Type) veqb (value : nat -> rec -> opt
   route k = route_of (route_priority false false true) tbl ->
   adhoc_tf rec V veqb value D route supplied r k = tf_of_data rec V veqb value D k (value k r).
 Proof. intros H. unfold adhoc_tf. rewrite H. reflexivity. Qed.
+
+(* ------------------------------------------------------------------------------------ *)
+(* two entry points whose extracted scoring skeletons pass pipeline_eqb compute the same rows *)
+Definition out_rel (a b : pl_out) : Prop :=
+  Forall2 oxq_eq (o_gammas a) (o_gammas b) /\ Forall2 oxq_eq (o_bfs a) (o_bfs b) /\ Forall2 oxq_eq (o_tfs a) (o_tfs b) /\
+  oxq_eq (o_weight_arg a) (o_weight_arg b) /\ oxq_eq (o_prob a) (o_prob b).
+
+Lemma oxq_eq_refl x : oxq_eq x x.
+Proof. destruct x; cbn; auto. apply xq_eq_refl. Qed.
+
+Lemma nth_rel (l l' : list (option xq)) i : Forall2 oxq_eq l l' -> oxq_eq (nth i l None) (nth i l' None).
+Proof. intros H. revert i. induction H; intros [|i]; cbn; auto. Qed.
+
+Section PipelineAgree.
+  Variable pow : Q -> Q -> Q.
+  Hypothesis pow_compat : forall a a' b b', a == a' -> b == b' -> pow a b == pow a' b'.
+
+  Lemma all2b_map_rel (la lb : list nx) env env' conds :
+    all2b nx_eqb la lb = true -> (forall c, oxq_eq (env c) (env' c)) ->
+    Forall2 oxq_eq (map (neval pow env conds) la) (map (neval pow env' conds) lb).
+  Proof.
+    revert lb. induction la as [|a t IH]; intros [|b t'] H He; cbn in *; try discriminate; auto.
+    apply andb_prop in H. destruct H as [H1 H2]. constructor; auto.
+    apply (proj1 (eqb_sound pow pow_compat)); auto.
+  Qed.
+
+  Theorem pipeline_agrees a b tfs outcs :
+    pipeline_eqb a b = true -> out_rel (run_pipeline pow a tfs outcs) (run_pipeline pow b tfs outcs).
+  Proof.
+    unfold pipeline_eqb. intros H.
+    apply andb_prop in H. destruct H as [H Hp]. apply andb_prop in H. destruct H as [H Hw].
+    apply andb_prop in H. destruct H as [H Ht]. apply andb_prop in H. destruct H as [Hg Hb].
+    unfold run_pipeline, out_rel. cbn [o_gammas o_bfs o_tfs o_weight_arg o_prob].
+    set (e0 := env_tf tfs).
+    assert (G : Forall2 oxq_eq (map (fun go => neval pow e0 (snd go) (fst go)) (combine (pl_gammas a) outcs))
+                               (map (fun go => neval pow e0 (snd go) (fst go)) (combine (pl_gammas b) outcs))).
+    { clear - Hg pow_compat. revert Hg. generalize (pl_gammas a) (pl_gammas b) outcs.
+      induction l as [|x t IH]; intros [|y t'] ocs H; cbn in H; try discriminate.
+      - constructor.
+      - destruct ocs as [|oc ot]; cbn; [constructor|].
+        apply andb_prop in H. destruct H as [H1 H2]. constructor; [|apply IH; auto].
+        apply (proj1 (eqb_sound pow pow_compat)); auto. intros c. apply oxq_eq_refl. }
+    set (ga := map _ (combine (pl_gammas a) outcs)) in *. set (gb := map _ (combine (pl_gammas b) outcs)) in *.
+    assert (E1 : forall c, oxq_eq (env_with_gammas e0 ga c) (env_with_gammas e0 gb c)).
+    { intros [i|i|i|k|k]; cbn; first [apply nth_rel; assumption | apply oxq_eq_refl | exact I]. }
+    assert (B : Forall2 oxq_eq (map (neval pow (env_with_gammas e0 ga) no_conds) (pl_bfs a))
+                               (map (neval pow (env_with_gammas e0 gb) no_conds) (pl_bfs b))) by (apply all2b_map_rel; auto).
+    assert (T : Forall2 oxq_eq
+                  (map (fun o => match o with Some e => neval pow (env_with_gammas e0 ga) no_conds e | None => None end) (pl_tfs a))
+                  (map (fun o => match o with Some e => neval pow (env_with_gammas e0 gb) no_conds e | None => None end) (pl_tfs b))).
+    { clear - Ht E1 pow_compat. revert Ht. generalize (pl_tfs a) (pl_tfs b).
+      induction l as [|x t IH]; intros [|y t'] H; cbn in H; try discriminate; cbn [map]; [constructor|].
+      apply andb_prop in H. destruct H as [H1 H2]. constructor; [|apply IH; auto].
+      destruct x, y; cbn in H1; try discriminate; cbn; auto. apply (proj1 (eqb_sound pow pow_compat)); auto. }
+    set (ba := map _ (pl_bfs a)) in *. set (bb := map _ (pl_bfs b)) in *.
+    set (ta := map _ (pl_tfs a)) in *. set (tb := map _ (pl_tfs b)) in *.
+    assert (E2 : forall c, oxq_eq (env_with_parts (env_with_gammas e0 ga) ba ta c) (env_with_parts (env_with_gammas e0 gb) bb tb c)).
+    { intros [i|i|i|k|k]; cbn; first [apply nth_rel; assumption | apply oxq_eq_refl | exact I]. }
+    repeat split; auto; apply (proj1 (eqb_sound pow pow_compat)); auto.
+  Qed.
+End PipelineAgree.
+
+(* ------------------------------------------------------------------------------------ *)
+(* TF of an ad-hoc record as a function of the cache state, for ANY source-selection function that
+   agrees with route_priority on the 8 states (the one regenerated from the emitted SQL does: gen file) *)
+Lemma adhoc_tf_by_cache_state (rec V : Type) veqb (value : nat -> rec -> option V) (D : list rec)
+      (src : bool -> bool -> bool -> route_kind) :
+  (forall s t c, src s t c = route_priority s t c) ->
+  forall (supplied_col table_cached : nat -> bool) (concat_cached : bool) (tbl : nat -> list (V * Q)) supplied r k,
+    adhoc_tf rec V veqb value D
+             (fun k => route_of (src (supplied_col k) (table_cached k) concat_cached) (tbl k)) supplied r k
+    = if supplied_col k then supplied r k
+      else if table_cached k then data_tf rec V veqb value D (fun k => Some (tbl k)) r k
+      else if concat_cached then data_tf rec V veqb value D (fun _ => None) r k
+      else None.
+Proof.
+  intros H sc tc cc tbl supplied r k. unfold adhoc_tf, data_tf. rewrite H. unfold route_priority.
+  destruct (sc k), (tc k), cc; reflexivity.
+Qed.
